@@ -16,9 +16,11 @@ VARIABLE pred          \* predicted observable state after each step
 gvars == <<vars, pred>>
 
 GInit == Init /\ pred = <<>>
-GNext == Next /\ pred' = Append(pred, [mem |-> mem', arch |-> archs', cur |-> cur', stats |-> stats',
-                                       ret |-> last'.ret, exc |-> last'.exc])
+GNext == Next /\ pred' = IF n' > n
+                          THEN Append(pred, [mem |-> mem', arch |-> archs', cur |-> cur', stats |-> stats',
+                                             ret |-> last'.ret, exc |-> last'.exc])
+                          ELSE pred
 GSpec == GInit /\ [][GNext]_gvars
 
-Emit == (n = DEPTH) => PrintT(<<"HIST", ToJson([ops |-> hist, pred |-> pred])>>)
+Emit == (n = DEPTH /\ stack = <<>>) => PrintT(<<"HIST", ToJson([ops |-> hist, pred |-> pred])>>)
 =============================================================================
